@@ -298,12 +298,14 @@ func (e *regEnv) oraclePin(ctx *Ctx) {
 			if got, ok := live[ty]; !ok || got != tag {
 				miss("pinned-type", "pin:type:"+ty, fmt.Sprintf("the pin has the %s type %s with the table of tag 0x%06X (%s); the library registers it with 0x%06X (registered: %v)", kind, ty, tag, p.tagName(tag), got, ok), line)
 			}
+			// (the default tag is not part of `covers`: the Lean checker compares ttlv.enums / ttlv.bitmasks with the
+			// pin and ties ttlv.tagByType to them by `typesWF`)
 			if got, ok := l.typeTags[ty]; !ok || got != tag {
-				miss("pinned-type", "pin:type:"+ty+":default-tag", fmt.Sprintf("the pin has the %s type %s with tag 0x%06X (%s); its default tag (ttlv.tagByType, what typed fields are written with) is 0x%06X (registered: %v)", kind, ty, tag, p.tagName(tag), got, ok), line)
+				e.violate(ctx, "C17", "pinned-type", "pin:type:"+ty+":default-tag", fmt.Sprintf("the pin has the %s type %s with tag 0x%06X (%s); its default tag (ttlv.tagByType, what typed fields are written with) is 0x%06X (registered: %v)", kind, ty, tag, p.tagName(tag), got, ok), line)
 			}
 			if rt, ok := e.types[ty]; ok {
 				if got, ok := ttlv.VerifTagForType(rt); !ok || got != tag {
-					miss("pinned-type", "pin:type:"+ty+":default-tag", fmt.Sprintf("getTagForType(%s) = 0x%06X (%v), pinned 0x%06X", ty, got, ok, tag), line)
+					e.violate(ctx, "C17", "pinned-type", "pin:type:"+ty+":default-tag", fmt.Sprintf("getTagForType(%s) = 0x%06X (%v), pinned 0x%06X", ty, got, ok, tag), line)
 				}
 			}
 		}
